@@ -80,6 +80,16 @@ type VEDS struct {
 	State     string   `json:"state"`
 }
 
+// VSetting is an ExtendedDaemonsetSetting of a state vector.
+type VSetting struct {
+	Name string `json:"name"`
+	Ref  string `json:"ref"`
+	Sel  string `json:"sel"` // group selected; "!bad" = unusable selector
+	Res  string `json:"res"`
+	Age  int    `json:"age"`
+	Expr bool   `json:"expr"`
+}
+
 // Vector is one state vector.
 type Vector struct {
 	Label    string         `json:"label"`
@@ -89,6 +99,7 @@ type Vector struct {
 	EDS      VEDS           `json:"eds"`
 	RS       []VRS          `json:"rs"`
 	Pods     []VPod         `json:"pods"`
+	Settings []VSetting     `json:"settings"`
 	Steps    []Action       `json:"steps"`
 	Reps     int            `json:"reps"`
 }
@@ -197,6 +208,11 @@ func (d *Driver) Materialize(v *Vector) error {
 	}
 	for i, p := range v.Pods {
 		if err := c.placePod(i, p, rsName); err != nil {
+			return err
+		}
+	}
+	for _, x := range v.Settings {
+		if err := c.CreateSetting("ns1", x.Name, x.Ref, x.Sel, x.Res, x.Expr, time.Now().Add(-time.Duration(x.Age)*Unit)); err != nil {
 			return err
 		}
 	}
